@@ -400,7 +400,7 @@ func cmdRandom(args []string) {
 				inMem = false
 			case "dec":
 				inMem, warm = true, false
-			case "warm":
+			case "warm", "mutate":
 				warm = true
 			}
 		}
